@@ -108,6 +108,8 @@ type vecHistOpts struct {
 	fine       bool // near-duplicate coordinates (style 3 of histVec)
 	radii      bool // clusters of very different radius (style 4)
 	forceStyle int  // > 0: that style of histVec; < 0: style 0 (small pool, exact ties)
+	dumpBeforeSearch bool // every search is preceded by a dump of the index: the probe oracles always have the
+	// implementation's own centroids and lists to judge the answer by
 	tailPattern bool // once, past the middle of the history: flush, remove the first two and the last-but-one of the
 	// stored vectors, flush again, search (a compaction that moves entries instead of copying them in
 	// order must not bring a removed one back)
@@ -437,6 +439,9 @@ func runVecHistory(r *rand.Rand, p vecParams, o vecHistOpts, t *Trace) *Case {
 		case x < 62 && p.kind != 0 && (!o.trainFirst || r.Intn(3) == 0): // train late / again (also over stored vectors)
 			emitTrain(o.ntrain)
 		default: // search
+			if o.dumpBeforeSearch {
+				emitDump()
+			}
 			nq := 1
 			y := r.Intn(10)
 			if y >= 7 && y < 9 {
